@@ -537,10 +537,11 @@ theorem C06_N_full (file : List Line) (h1 : Hunk) (rest : List Hunk) (p0 : Patch
       (o.verbose = false → r.msgs = [Msg.reversedDetected false, Msg.skippingPatch]) ∧ r.tty = tty ∧ r.patch = p0 := by
   obtain ⟨_, _, q, hq⟩ := C06.reversed_perfect file h1 rest o hv hx hF
   have hsc := C06.forward_not_perfect _ h1 o hamb hf
+  have hsus := C06.probe_suspicious _ h1 o q hamb hq
   generalize splice file 0 (h1 :: rest) = B at *
   unfold applyPatch
-  simp only [hR, Bool.false_eq_true, if_false, hp, hsc, if_true, hq, isPerfect, beq_self_eq_true, Bool.and_self,
-    Bool.true_or, checkHowToHandleReversed, hN, Bool.not_true]
+  simp only [hR, Bool.false_eq_true, if_false, hp, hsc, if_true, hsus]
+  simp only [checkHowToHandleReversed, hN, Bool.not_true, Bool.false_eq_true, if_false]
   obtain ⟨s3, e, a1, a2, a3, a4, a5, a6, a7, a9, a8⟩ := applyRest_skip_full B o p0 hu (h1 :: rest)
     ({ skip := true, msgs := [Msg.reversedDetected false, Msg.skippingPatch], tty := tty } : AState) 0 rfl rfl
   have hfold := C01.first_then_rest B o p0
@@ -568,10 +569,11 @@ theorem C06_t_full (file : List Line) (h1 : Hunk) (rest : List Hunk) (p0 : Patch
       r.patch = reversePatch p0 := by
   obtain ⟨hv', hs', q, hq⟩ := C06.reversed_perfect file h1 rest o hv hx hF
   have hsc := C06.forward_not_perfect _ h1 o hamb hf
+  have hsus := C06.probe_suspicious _ h1 o q hamb hq
   generalize splice file 0 (h1 :: rest) = B at *
   unfold applyPatch
-  simp only [hR, Bool.false_eq_true, if_false, hp, hsc, if_true, hq, isPerfect, beq_self_eq_true, Bool.and_self,
-    Bool.true_or, checkHowToHandleReversed, hN, ht, Bool.not_false]
+  simp only [hR, Bool.false_eq_true, if_false, hp, hsc, if_true, hsus]
+  simp only [hq, checkHowToHandleReversed, hN, ht, Bool.not_false, if_true]
   obtain ⟨s3, e, b1, b2, _, b4, b5, _, b7, _, b9⟩ :=
     C01.applyRest_valid B o (reversePatch p0) hD hF 0 0 _ hv'
       ({ msgs := [Msg.reversedDetected false, Msg.assumingR], tty := tty } : AState) 0 rfl rfl rfl
